@@ -485,14 +485,14 @@ def plan(prop, tier, seed, budget):
             level='exploration',
             builds=[('c06', 'asan'), ('c06t', 'tsan')],
             optional_builds=[('c06', 'asan')],
-            jobs=([g5a('two-small', 2000000, 4), g5a('three', 3000, 12), g2c06(100000), g6(20000, 4)] if q else
-                  [g5a('two', 2000000, 16), g5a('three', 200000, 16), g5a('four', 60000, 16), g2c06(1500000), g6(400000, 8)]),
+            jobs=([g5a('two-all', 2000000, 16), g5a('three', 3000, 12), g2c06(100000), g6(5000, 8)] if q else
+                  [g5a('two', 2000000, 16), g5a('two-all', 2000000, 16), g5a('three', 200000, 16), g5a('four', 60000, 16), g2c06(1500000), g6(400000, 8)]),
             rule='case = (scenario, schedule): one allocation, 2-4 threads each owning private shared/weak pointer objects (0-2 initial owners, '
                  '0-2 initial weak references) and running a script of 1-4 operations from {share, reset, weak_from, lock (then touch the '
                  'memory, yield, touch again, reset), weak_reset} followed by resetting everything it holds. src/memory.c is compiled against '
                  'shadow <stdatomic.h>/<sched.h>: every atomic step, every library malloc/free, the clear callback entry and every memory touch '
                  'first returns control to a deterministic scheduler that follows the schedule bytes. G5a = EVERY schedule of every scenario of a '
-                 'catalogue by stateless DFS with visited-state pruning (two: 4356 two-thread scenarios, exhaustive; three/four: 1080/162 '
+                 'catalogue by stateless DFS with visited-state pruning (two-all: every pair of scripts of length <= 2 over the seven operations in every configuration of 0-1 initial owners and weak references per thread, 25088 scenarios, exhaustive; two: 7056 two-thread scenarios with up to 2 initial references and scripts up to length 3, exhaustive; three/four: 1080/162 '
                  'scenarios up to a per-scenario cap); G5b (g2) = random scenarios with PCT-like random schedules; G6 = the same scenarios on '
                  'real pthreads under ThreadSanitizer. Oracle per schedule: clear once, managed block freed once, bookkeeping freed once, '
                  'nothing live; every atomic step inside the live bookkeeping block; a lock that yields an owner yields live memory until that '
